@@ -265,6 +265,9 @@ func c02Overlap(doc any, rng *rand.Rand) any {
 	if rng.Intn(2) == 0 {
 		penv = append(penv, [2]any{"plugins", "docker,ecr"}, [2]any{"command", "from-env"}) // pipeline variables named like signed fields
 	}
+	if rng.Intn(2) == 0 {
+		penv = append(penv, [2]any{"http_proxy", "lower"}, [2]any{"HTTP_PROXY", "UPPER"}, [2]any{"Http_Proxy", "Mixed"}) // names that differ only in case are different variables
+	}
 	for pi, p := range top {
 		if p[0] == "env" {
 			top[pi] = [2]any{"env", penv}
@@ -301,6 +304,21 @@ func c02Overlap(doc any, rng *rand.Rand) any {
 				}
 				if !hasPlugins && cmdAt >= 0 {
 					m[cmdAt] = [2]any{"command", ""}
+					steps[si] = m
+				}
+			}
+			if isCmd && rng.Intn(3) == 0 {
+				// the document already carries a signature (made earlier, over other content, maybe with the very
+				// algorithm that signs now): signing replaces it
+				hasSig := false
+				for _, p := range m {
+					if p[0] == "signature" {
+						hasSig = true
+					}
+				}
+				if !hasSig {
+					m = append(m, [2]any{"signature", orderedJSON{{"algorithm", []string{"EdDSA", "ES512", "PS512", "ES256"}[rng.Intn(4)]},
+						{"signed_fields", []any{"command", "env", "matrix", "plugins", "repository_url"}}, {"value", "eyJhbGciOiJFZERTQSJ9..c3RhbGU"}}})
 					steps[si] = m
 				}
 			}
